@@ -20,7 +20,7 @@
 use std::{
     alloc::{Layout, handle_alloc_error},
     ptr::NonNull,
-    sync::{Arc, Mutex},
+    sync::{Arc, Mutex, MutexGuard},
 };
 
 use crate::value::{VTable, vtable::DropFn};
@@ -178,9 +178,7 @@ pub mod boundary {
                 return true;
             }
 
-            #[cfg(feature = "verif-hooks")]
-            crate::verif::list_lock(std::sync::Arc::as_ptr(&self.inner.0) as usize, "eq#1");
-            let this = self.inner.0.lock().unwrap();
+            let (this, other) = self.inner.lock_both(&other.inner);
 
             // SAFETY: The rawlist represents a slice of T::Transformed so
             // we can safely construct a slice from it's parts as long as we
@@ -191,10 +189,6 @@ pub mod boundary {
                     this.len,
                 )
             };
-
-            #[cfg(feature = "verif-hooks")]
-            crate::verif::list_lock(std::sync::Arc::as_ptr(&self.inner.0) as usize, "eq#2");
-            let other = self.inner.0.lock().unwrap();
 
             // SAFETY: The rawlist represents a slice of T::Transformed so
             // we can safely construct a slice from it's parts as long as we
@@ -476,12 +470,7 @@ impl PartialEq for ErasedList {
             return true;
         }
 
-        #[cfg(feature = "verif-hooks")]
-        crate::verif::list_lock(std::sync::Arc::as_ptr(&self.0) as usize, "eq#3");
-        let this = self.0.lock().unwrap();
-        #[cfg(feature = "verif-hooks")]
-        crate::verif::list_lock(std::sync::Arc::as_ptr(&other.0) as usize, "eq#4");
-        let other = other.0.lock().unwrap();
+        let (this, other) = self.lock_both(other);
 
         if this.len != other.len {
             return false;
@@ -510,6 +499,38 @@ impl PartialEq for ErasedList {
 impl ErasedList {
     pub fn new(vtable: VTable) -> Self {
         Self(Arc::new(Mutex::new(RawList::new(vtable))))
+    }
+
+    /// Lock two distinct lists, returning the guards of `self` and `other`.
+    ///
+    /// The locks are always acquired in the order of the addresses of the
+    /// lists, so that two threads locking the same pair of lists in opposite
+    /// argument order (`a == b` and `b == a`) cannot deadlock.
+    ///
+    /// The lists must not be the same list, because a mutex cannot be locked
+    /// twice.
+    fn lock_both<'a>(
+        &'a self,
+        other: &'a Self,
+    ) -> (MutexGuard<'a, RawList>, MutexGuard<'a, RawList>) {
+        debug_assert!(!Arc::ptr_eq(&self.0, &other.0));
+        if Arc::as_ptr(&self.0) < Arc::as_ptr(&other.0) {
+            #[cfg(feature = "verif-hooks")]
+            crate::verif::list_lock(std::sync::Arc::as_ptr(&self.0) as usize, "lock_both#1");
+            let this = self.0.lock().unwrap();
+            #[cfg(feature = "verif-hooks")]
+            crate::verif::list_lock(std::sync::Arc::as_ptr(&other.0) as usize, "lock_both#2");
+            let other = other.0.lock().unwrap();
+            (this, other)
+        } else {
+            #[cfg(feature = "verif-hooks")]
+            crate::verif::list_lock(std::sync::Arc::as_ptr(&other.0) as usize, "lock_both#3");
+            let other = other.0.lock().unwrap();
+            #[cfg(feature = "verif-hooks")]
+            crate::verif::list_lock(std::sync::Arc::as_ptr(&self.0) as usize, "lock_both#4");
+            let this = self.0.lock().unwrap();
+            (this, other)
+        }
     }
 
     /// Push a value to this list
